@@ -386,3 +386,23 @@ func HarnessC06Concurrent() {
 		}
 	}
 }
+
+// C06 (anchors at large): two temporal predicates with the same identifier
+// anchored at time.Unix(s, n), s symbolic over [0, 2^33) seconds (1970-2242)
+// and n over [0, 1e9): same UUID exactly when the instants are equal.
+func HarnessC06AnchorWide() {
+	s1, s2 := verif.Int64("s1"), verif.Int64("s2")
+	n1, n2 := verif.Int64("n1"), verif.Int64("n2")
+	lim := int64(1) << uint(verif.Param("SECBITS", 33))
+	verif.Assume(verif.And(verif.And(s1 >= 0, s1 < lim), verif.And(s2 >= 0, s2 < lim)))
+	verif.Assume(verif.And(verif.And(n1 >= 0, n1 < 1000000000), verif.And(n2 >= 0, n2 < 1000000000)))
+	a, e1 := predicate.NewTemporal("p", time.Unix(s1, n1).UTC())
+	b, e2 := predicate.NewTemporal("p", time.Unix(s2, n2).UTC())
+	verif.Assume(e1 == nil && e2 == nil)
+	var ua, ub uuid.UUID
+	if !noPanic("C06/anchor/uuid-defined", func() { ua, ub = a.UUID(), b.UUID() }) {
+		return
+	}
+	verif.Reach("uuids")
+	verif.Assert(uuid.Equal(ua, ub) == verif.And(s1 == s2, n1 == n2), "C06/anchor/uuid-iff-same-instant")
+}
